@@ -168,6 +168,8 @@ func runC04(c *core.Ctx, r *core.Reporter) {
 	c.BuildSSA()
 	c04default(c, r)
 	c04absent(c, r)
+	// a call compiled early must be bound per the lambda list the function has now
+	c08refresh(c, r, "C04.refresh")
 	const rule = "C04.arity"
 	r.Rule(rule, "for every registration with a literal FuncDoc.Args, the range enforced by the dominating CheckArgCount-family call on the Call method's argument list equals the range the documented lambda list allows "+
 		"(required .. required+optional+2*keys, open after &rest/&body/&allow-other-keys)", 600)
